@@ -666,6 +666,15 @@ func cmdDocReplay(args []string) int {
 		defer os.RemoveAll(tmp)
 		_, rerr, _ = errlineOne(v.Rec, v.Index, v.Seed, tmp)
 	default:
+		if strings.HasPrefix(v.Check, "views:") {
+			var r listRec
+			if err := json.Unmarshal([]byte(v.Input), &r); err != nil {
+				fmt.Fprintln(os.Stderr, "bad record in replay file:", err)
+				return 2
+			}
+			_, rerr = runViewsRecord(strings.TrimPrefix(v.Check, "views:"), &r, v.Seed, nil)
+			break
+		}
 		fmt.Fprintln(os.Stderr, "unknown check", v.Check)
 		return 2
 	}
